@@ -603,6 +603,10 @@ class Expander:
                 spec["desugar_try"] = True
             elif k == "desugar_for":
                 spec["desugar_for"] = True
+            elif k == "hint":
+                # hint <n> <regex>   + block: proof text (asserts only) spliced before the n-th match of regex in the body
+                parts = w[1].split(None, 1)
+                spec.setdefault("hints", []).append((int(parts[0]), parts[1].strip(), raw_block(c)))
             elif k == "rename_ident":
                 a, b = split_sub(w[1])
                 spec.setdefault("renames", []).append((a, b))
@@ -734,6 +738,27 @@ class Expander:
                         raise LostAnchor("%s: cannot desugar `?` in %s: %s" % (rel, fnid, e))
                     cnt += n
             self.rewrites.append("%s: %d `?` in %s desugared to match/return Err(From::from(e)) (rustc's own desugaring for Result)" % (rel, cnt, fnid))
+        for nth, pat, block in spec.get("hints", []):
+            if re.search(r"\b(assume|admit)\s*\(", block):
+                raise ValueError("%s: hint for %s contains assume/admit" % (self.tmpl_path, fnid))
+            seen = 0
+            done = False
+            for sg in self.out.segs[body_seg0:]:
+                if sg.origin[0] not in ("repo", "rewrite"):
+                    continue
+                for m in re.finditer(pat, sg.text):
+                    seen += 1
+                    if seen == nth:
+                        sg.text = sg.text[:m.start()] + "proof { " + block.replace("\n", " ") + " } " + sg.text[m.start():]
+                        done = True
+                        break
+                if done:
+                    break
+            if not done:
+                # the anchor is gone: the code is checked without the hint (may then fail to verify => undecided? no: a
+                # missing hint can only make a proof fail, which would be reported as a violation; so refuse instead)
+                raise LostAnchor("%s: proof hint anchor /%s/ #%d not found in %s" % (rel, pat, nth, fnid))
+            self.rewrites.append("%s: proof hint (asserts only) spliced before match #%d of /%s/ in %s" % (rel, nth, pat, fnid))
         for a, b in spec.get("renames", []):
             # alpha-renaming of a local identifier (all occurrences that are not field/method/path segments)
             n = 0
